@@ -94,7 +94,7 @@ func (c *Cluster) launch(p *Proc) {
 	cmd.Stdout = lf
 	cmd.Stderr = lf
 	cmd.SysProcAttr = &syscall.SysProcAttr{Setpgid: true}
-	cmd.Env = append(os.Environ(), "GORACE=halt_on_error=0 clear_shadow_mmap_threshold=1099511627776 log_path="+filepath.Join(c.raceDir, p.Name))
+	cmd.Env = append(os.Environ(), "GORACE=halt_on_error=0 exitcode=0 clear_shadow_mmap_threshold=1099511627776 log_path="+filepath.Join(c.raceDir, p.Name))
 	if err := cmd.Start(); err != nil {
 		c.R.Must(err, "start weed "+p.Name)
 	}
